@@ -194,6 +194,7 @@ def check_case(ctx, sf, prefix, op, n, backend, cutoff=8):
 def run(ctx, sf):
     sf.hbar = 2
     simcorr.run_fock_corr(ctx, ctx.n(220, 2200))
+    simcorr.run_bos_corr(ctx, ctx.n(100, 1000))
     simcorr.run_gauss_corr(ctx, ctx.n(100, 1000))
     rng = ctx.rng
     kinds = ["g1", "g2", "nong", "ch", "prep", "meas"]
